@@ -13,3 +13,14 @@ def H(name, prop, variant, src, sdk=(), **kw):
 
 # --- machinery self tests (not properties) ------------------------------------------------------
 H("selftest_seq", "SELF", "seq", ["harness/selftest_seq.cc"], what="core self-test: toy choice tree")
+
+# --- C11 ---------------------------------------------------------------------------------------
+H("c11_circbuf", "C11", "sched", ["harness/c11_circbuf.cc"], cxxflags=["-fno-access-control"],
+  args={"quick": ["--k=2"], "thorough": ["--k=4"]},
+  what="real CircularBuffer/AtomicUniquePtr: 1..3 producers x 1..2 Add (both overloads) vs one consumer (4 programs), all interleavings within the preemption bound, spurious weak-CAS failures",
+  design_ref="5/C11")
+H("c11_spinlock", "C11", "sched", ["harness/c11_spinlock.cc"], args={"quick": ["--k=3"], "thorough": ["--k=5"]},
+  what="real SpinLockMutex: 2..3 threads x programs over lock/try_lock/unlock, occupancy <= 1 in every state, every lock() returns (deadlock / livelock detection)",
+  design_ref="5/C11")
+H("c11_tsan", "C11", "tsan", ["harness/c11_tsan.cc"], aux=True, args={"quick": ["300"], "thorough": ["3000"]},
+  note="free-running ThreadSanitizer pass over the same bodies (sampling; assumption check for the sequentially consistent scheduler)")
